@@ -519,11 +519,99 @@ def check_sql(chk: Check) -> None:
         chk.sample({"sql_program": progs[len(progs) // 2][4]})
 
 
+# ---------------------------------------------------------------------------------------------- use-walrus-if
+def _walrus_program(p) -> str:
+    val = {"zero": "0", "one": "1", "none": "None"}[p["value"]]
+    test = {"name": "x", "not": "not x", "isnone": "x is None", "eq": "x == 1", "ne": "x != 1"}[p["test"]]
+    reads = set(p["reads"])
+    core = ["x = compute()", f"if {test}:",
+            '    print("body", x)' if "body" in reads else '    print("body")',
+            "else:",
+            '    print("else", x)' if "else" in reads else '    print("else")']
+    if "after" in reads:
+        core.append('print("after", x)')
+    head = ["def compute():", '    print("compute")', f"    return {val}", "", ""]
+
+    def ind(lines, n=1):
+        return [("    " * n + ln) for ln in lines]
+
+    sc = p["scope"]
+    if sc == "module":
+        body = core
+    elif sc == "function":
+        body = ["def f():"] + ind(core) + ["", "", "f()"]
+    elif sc == "global":
+        body = ["x = -1", "", "", "def f():", "    global x"] + ind(core) + ["", "", "f()"] + (['print("outside", x)'] if "outside" in reads else [])
+    elif sc == "nonlocal":
+        body = (["def outer():", "    x = -1", "", "    def inner():", "        nonlocal x"] + ind(core, 2) + ["", "    inner()"]
+                + (['    print("outside", x)'] if "outside" in reads else []) + ["", "", "outer()"])
+    else:
+        body = ["class K:"] + ind(core) + ["", ""] + (['print("outside", K.x)'] if "outside" in reads else ['print("defined", K.__name__)'])
+    return "\n".join(head + body) + "\n"
+
+
+def check_walrus(chk: Check) -> None:
+    """WalrusIf.tla: where the `x = v; if <test on x>` construct stands and who reads x afterwards; TLC decides that
+    the rule which drops the binding drops unread bindings only; the real codemod is compared with the rule and both
+    programs are executed."""
+    import random
+    from concurrent.futures import ThreadPoolExecutor
+
+    res = gen.run_generator("WalrusIf", None, None, cfg="WalrusIf.cfg")
+    chk.add_tlc(res)
+    cases = [(st["p"], st["exp"]) for st in res.dump if st["st"] == "done"]
+    cases.sort(key=lambda x: json.dumps(expr.canon(x[0]), sort_keys=True, default=sorted))
+    for c in cases:
+        c[0]["reads"] = sorted(c[0]["reads"])
+    n = chk.pick(200, len(cases))
+    if n < len(cases):
+        cases = random.Random(chk.seed + 3).sample(cases, n)
+    files = {f"u{i:04d}.py": _walrus_program(p) for i, (p, _e) in enumerate(cases)}
+    names = sorted(files)
+    per = max(1, (len(names) + 15) // 16)
+    scns = [{"id": f"C08-walrus-{b // per}", "files": {r: files[r] for r in names[b : b + per]},
+             "steps": [{"argv": ["{dir}", "--output", "{out}", "--codemod-include", "pixee:python/use-walrus-if"], "keep_after": True}]}
+            for b in range(0, len(names), per)]
+    sts = [r["steps"][0] for r in runner.run_many(scns)]
+    after_all = {}
+    for st_ in sts:
+        after_all.update(st_["after"])
+    jobs = [(p, e, files[f"u{i:04d}.py"], after_all.get(f"u{i:04d}.py", files[f"u{i:04d}.py"])) for i, (p, e) in enumerate(cases)]
+    with ThreadPoolExecutor(max_workers=16) as ex:
+        outs = list(ex.map(lambda j: (_execute(j[2]), _execute(j[3]) if j[3] != j[2] else None), jobs))
+    all_same, deviates, rewritten = True, 0, 0
+    for (p, e, before, after), (o1, o2) in zip(jobs, outs):
+        chk.count()
+        shape = f"{p['scope']}/{p['test']}/{p['value']}/reads={'+'.join(p['reads']) or 'none'}"
+        if "EXC" in o1:
+            raise tlc.TlcFailure(f"the generated walrus program [{shape}] does not run: {o1[:300]}")
+        if after == before:
+            continue
+        rewritten += 1
+        chk.nontrivial(shape)
+        dropped = "x :=" not in after and "x = compute()" not in after
+        if dropped != bool(e["drops"]):
+            deviates += 1
+        if o2 != o1:
+            all_same = False
+            chk.violation(f"C08|walrus|{shape}", f"use-walrus-if on [{shape}] ({'binding dropped' if dropped else 'walrus'}; WalrusIf.tla says "
+                          f"{'drop' if e['drops'] else 'keep'}): output before {o1!r} after {o2!r}", {"before": before, "after": after, "out_before": o1, "out_after": o2})
+    sts[0]["trace"]["events"].append({"ev": "Compare", "what": "rewritten-program-behaves-differently", "equal": all_same})
+    verdicts, stats = tracecheck.validate([st_["trace"] for st_ in sts])
+    for s_ in stats:
+        chk.add_tlc(s_)
+    chk.coverage["traces_validated_against_impl"] += len(sts)
+    chk.coverage["walrus_programs"] = len(cases)
+    chk.coverage["walrus_rewritten"] = rewritten
+    chk.coverage["walrus_code_deviates_from_rule"] = deviates
+
+
 def run(chk: Check) -> None:
     check_rules(chk)
     check_observed(chk)
     check_with_scope(chk)
     check_sql(chk)
+    check_walrus(chk)
     chk.assumptions += [
         "rules: operands are small integers / tuples of them, string-typed arguments; exceptions raised by operand evaluation are not modelled",
         "observed: the repository's seed snippets run closed under a stand-in for every free name; programs outside the seeds are not covered",
